@@ -21,10 +21,10 @@ struct Out {
     max_closures: usize,
 }
 
-fn check(src: &str, inputs: &Inputs, n: u64) -> Out {
+fn check(src: &str, inputs: &Inputs, n: u64, sched: bool) -> Out {
     let mut o = Out { fail: None, discard: None, max_closures: 0 };
     let _ = panics::take_invalid_handle_warnings();
-    let r = exec::run_vm(src, inputs, &RunOpts { n: 2 * n, sched: false, want_state: false, want_counts: true, want_trace: false });
+    let r = exec::run_vm(src, inputs, &RunOpts { n: 2 * n, sched, want_state: false, want_counts: true, want_trace: false });
     let warnings = panics::take_invalid_handle_warnings();
     match r {
         Exec::Rejected(_) | Exec::NoIo => o.discard = Some("not-compilable".into()),
@@ -69,7 +69,8 @@ fn finish(src: &str, inputs: &Inputs, n: u64, classes: Vec<String>, allocs: bool
         r.direct = Some(direct);
         return r;
     }
-    let o = check(src, inputs, n);
+    let sched = src.contains('@');
+    let o = check(src, inputs, n, sched);
     if let Some(w) = o.discard {
         return CaseResult::discard(w);
     }
@@ -105,11 +106,21 @@ impl Prop for C12 {
     }
     fn spaces(&self, tier: Tier) -> Vec<Space> {
         match tier {
-            Tier::Quick => vec![Space { name: "sum", size: 4000, exhaustive: false, chunk: 200, case_timeout_s: 60.0, what: "generated programs that build values of (recursive, boxed) user sum types per sample and match on them x run length 2N" }, Space { name: "gen", size: 30000, exhaustive: false, chunk: 200, case_timeout_s: 60.0, what: "generated programs that create closures per sample (lambdas, local closures, lambdas passed to higher-order functions, maker calls) x run length 2N" }],
-            Tier::Thorough => vec![Space { name: "sum", size: 400_000, exhaustive: false, chunk: 500, case_timeout_s: 60.0, what: "generated programs that build values of (recursive, boxed) user sum types per sample x run length 2N" }, Space { name: "gen", size: 1_200_000, exhaustive: false, chunk: 1000, case_timeout_s: 60.0, what: "generated programs that create closures per sample x run length 2N" }],
+            Tier::Quick => vec![Space { name: "unit", size: 3000, exhaustive: false, chunk: 200, case_timeout_s: 60.0, what: "closures created inside unit-returning frames: helper functions called from dsp as statements and self-re-arming scheduled tasks x run length 2N" }, Space { name: "sum", size: 4000, exhaustive: false, chunk: 200, case_timeout_s: 60.0, what: "generated programs that build values of (recursive, boxed) user sum types per sample and match on them x run length 2N" }, Space { name: "gen", size: 30000, exhaustive: false, chunk: 200, case_timeout_s: 60.0, what: "generated programs that create closures per sample (lambdas, local closures, lambdas passed to higher-order functions, maker calls) x run length 2N" }],
+            Tier::Thorough => vec![Space { name: "unit", size: 100_000, exhaustive: false, chunk: 500, case_timeout_s: 60.0, what: "closures created inside unit-returning frames (helpers called as statements, scheduled tasks) x run length 2N" }, Space { name: "sum", size: 400_000, exhaustive: false, chunk: 500, case_timeout_s: 60.0, what: "generated programs that build values of (recursive, boxed) user sum types per sample x run length 2N" }, Space { name: "gen", size: 1_200_000, exhaustive: false, chunk: 1000, case_timeout_s: 60.0, what: "generated programs that create closures per sample x run length 2N" }],
         }
     }
     fn run(&self, space: &str, _index: u64, g: &mut Gen, cx: &Cx) -> CaseResult {
+        if space == "unit" {
+            let (src, sched) = crate::gens::textgen::unit_closures(g);
+            let inputs = gen_inputs(g);
+            let n = *g.pick(&[32u64, 16, 64]);
+            let mut classes = vec!["mode:unit-frames".to_string()];
+            if sched {
+                classes.push("unit:scheduled-task".into());
+            }
+            return finish(&src, &inputs, n, classes, true, cx);
+        }
         if space == "sum" {
             let mut scfg = crate::gens::sumgen::SumCfg::default();
             if cx.excluded(crate::props::c03::KF_SUM_LONE_REC) {
@@ -185,9 +196,9 @@ impl Prop for C12 {
         "Cases are (program, input stream, N in {16,32,64}). Programs from the core-language generator with per-sample allocation: lambdas applied in place, local closures, lambdas passed to higher-order functions, closures created at global scope by maker functions. Oracle (VM): run 2N samples; Machine.closures.len() and Machine.heap.len() after sample N must equal those after sample 2N; no `closure handle used after release` assertion (hook) and no `invalid HeapIdx` retain/release warning. Non-trivial = the program creates at least one closure per sample (by construction); distinct by source+inputs+N.".into()
     }
     fn assumptions(&self) -> Vec<String> {
-        vec!["only the VM is observed (the WASM runtime has no comparable counters)".into(), "boxed recursive variants and scheduled tasks are not generated here".into()]
+        vec!["only the VM is observed (the WASM runtime has no comparable counters)".into(), "scheduled tasks appear only in the `unit` space (self-re-arming chains that create closures)".into()]
     }
     fn required_classes(&self, _tier: Tier) -> Vec<&'static str> {
-        vec!["allocates-per-sample", "has-live-closures", "f:local-closure", "f:maker-closure"]
+        vec!["allocates-per-sample", "has-live-closures", "f:local-closure", "f:maker-closure", "mode:unit-frames", "unit:scheduled-task"]
     }
 }
